@@ -463,6 +463,7 @@ func ParseHdrLine(buf []byte, offs int, h *Hdr, hb PHBodies) (int, ErrorHdr) {
 					if h.state != hContact {
 						// new contact header found
 						contacts.HNo++
+						contacts.LastHVal.Reset() // value of this header only
 					}
 					h.state = hContact
 					n, err = ParseAllContactValues(buf, o, contacts)
@@ -483,6 +484,7 @@ func ParseHdrLine(buf []byte, offs int, h *Hdr, hb PHBodies) (int, ErrorHdr) {
 					if h.state != hPAI {
 						// new contact header found
 						pais.HNo++
+						pais.LastHVal.Reset() // value of this header only
 					}
 					h.state = hPAI
 					n, err = ParseAllPAIValues(buf, o, pais)
